@@ -19,7 +19,8 @@ from drive_ops import lookup_event, split_cases
 from opscheck import describe_cfg
 
 OPS = ['gp', 'op', 'ip', 'lc', 'rc', 'sp', 'cp', 'acp', 'rp', 'sw', 'proj', 'add', 'sub', 'neg', 'reverse', 'involute',
-       'conjugate', 'hodge', 'unhodge', 'unpolarity', 'normsq', 'outerexp', 'outercos', 'inv', 'div', 'grade', 'pow', 'dual']
+       'conjugate', 'hodge', 'unhodge', 'unpolarity', 'normsq', 'outerexp', 'outercos', 'inv', 'div', 'grade', 'pow', 'dual',
+       'id', 'id']      # id: the constructed multivector itself is called / substituted
 
 
 def run(ctx):
